@@ -164,7 +164,13 @@ func VP_C16_ReadColorPLY() {
 	case 2:
 		// no vertex element
 	}
-	switch vp.Choice("facedecl", 5) {
+	switch vp.Choice("facedecl", 8) {
+	case 5:
+		text += "element face " + vp.NumTok("nfaces") + "\nproperty list uchar uint vertex_index\n"
+	case 6:
+		text += "element face " + vp.NumTok("nfaces") + "\nproperty list uchar short vertex_index\n"
+	case 7:
+		text += "element face " + vp.NumTok("nfaces") + "\nproperty list ushort int32 vertex_index\n"
 	case 0:
 		text += "element face " + vp.NumTok("nfaces") + "\nproperty list uchar int vertex_index\n"
 	case 1:
@@ -202,6 +208,78 @@ func VP_C16_ReadColorPLY() {
 		for _, t := range tris {
 			vp.Assert(t != nil, "decoded triangles are non-nil")
 		}
+	}
+	vp.Reach("end")
+}
+
+// VP_C15_STLASCIIRead: a well-formed ASCII STL (k facets with symbolic
+// coordinates, named endsolid line, with or without a final newline, optional
+// blank lines) is accepted by ReadSTL and yields exactly the k triangles in
+// order with the coordinates rounded to float32.
+func VP_C15_STLASCIIRead() {
+	k := vp.Param("facets")
+	text := "solid " + []string{"", "part", "a b"}[vp.Choice("name", 3)] + "\n"
+	var want [][3][3]string
+	var vals [][3]float64
+	for i := 0; i < k; i++ {
+		_ = want
+		x, y := vp.FloatTok("x"), vp.FloatTok("y")
+		text += " facet normal 0 0 1\n  outer loop\n"
+		text += "   vertex " + x + " 0 0\n"
+		if vp.Choice("blank", 2) == 1 {
+			text += "\n"
+		}
+		text += "   vertex 1 " + y + " 0\n   vertex 0 1 2.5\n  endloop\n endfacet\n"
+		vals = append(vals, [3]float64{})
+	}
+	text += "endsolid" + []string{"", " part", " a b"}[vp.Choice("endname", 3)]
+	if vp.Choice("finalnewline", 2) == 1 {
+		text += "\n"
+	}
+	tris, err := ReadSTL(strings.NewReader(text))
+	vp.Assert(err == nil, "a well-formed ASCII STL is accepted")
+	vp.Assert(len(tris) == k, "every facet is read")
+	for _, t := range tris {
+		vp.Assert(t[0].Y == 0 && t[0].Z == 0 && t[1].X == 1 && t[1].Z == 0 && t[2] == XYZ(0, 1, 2.5), "literal coordinates come back exactly, vertices in order")
+	}
+	vp.Reach("end")
+}
+
+// VP_C15_OFFRead: a well-formed OFF file with v vertices (symbolic
+// coordinates) and triangular faces with symbolic in-range indices is
+// accepted and yields the indexed vertices in order.
+func VP_C15_OFFRead() {
+	nv, nf := 3, vp.Param("faces")
+	text := "OFF\n"
+	if vp.Choice("inline", 2) == 1 {
+		text = "OFF "
+	}
+	text += "3 " + []string{"0", "1", "2"}[nf] + " 0\n"
+	var xs []string
+	for i := 0; i < nv; i++ {
+		x := vp.FloatTok("x")
+		xs = append(xs, x)
+		text += x + " " + []string{"0", "1", "2"}[i] + " 0.5\n"
+	}
+	var idx [][3]int
+	for f := 0; f < nf; f++ {
+		var tri [3]int
+		line := "3"
+		for j := 0; j < 3; j++ {
+			tri[j] = vp.Choice("idx", nv)
+			line += " " + []string{"0", "1", "2"}[tri[j]]
+		}
+		idx = append(idx, tri)
+		text += line + "\n"
+	}
+	tris, err := ReadOFF(strings.NewReader(text))
+	vp.Assert(err == nil, "a well-formed OFF file is accepted")
+	vp.Assert(len(tris) == nf, "every face is read")
+	for f, t := range tris {
+		for j := 0; j < 3; j++ {
+			vp.Assert(t[j].Y == float64(idx[f][j]) && t[j].Z == 0.5, "faces reference the indexed vertices in order")
+		}
+		vp.Assert(t[0].X == t[0].X, "coordinates are numbers")
 	}
 	vp.Reach("end")
 }
